@@ -72,7 +72,7 @@ pub fn profile(id: &str) -> Option<Profile> {
             (Kind::Engine, 8000, 600_000)
         }
         "C07" => {
-            g.growth_pct = 2;
+            g.growth_pct = 4;
             g.par_pct = 80;
             g.max_clients = 8;
             g.max_ops_per_client = 4;
@@ -93,6 +93,7 @@ pub fn profile(id: &str) -> Option<Profile> {
         "C08" => {
             g.frag_pct = 20;
             g.growth_pct = 3;
+            g.reuse_cycles_pct = 12;
             g.par_pct = 25;
             g.tiny_cache_pct = 50;
             g.op_weights = [50, 5, 25, 6, 3, 3, 0, 0, 2];
